@@ -262,3 +262,37 @@ Proof.
     cbn [existsb] in H2. apply orb_false_elim in H2. destruct H2 as [Hc H2]. cbn [drop_while].
     destruct (47 =? c); [apply IH; exact H2|]. cbn [existsb]. rewrite Hc. exact H2.
 Qed.
+
+(* rebuilding an environ string that came from the encoding dance gives it back *)
+Lemma from_environ_identity x : valid_text x = true ->
+  from_environ_string (wsgi_encoding_dance x) = Some (wsgi_encoding_dance x).
+Proof. intro H. unfold from_environ_string. rewrite (dance_roundtrip x H). reflexivity. Qed.
+
+(* ... and in general the rebuilt string is read by the request as the original is *)
+Lemma from_environ_same_reading s s' : from_environ_string s = Some s' ->
+  wsgi_decoding_dance_replace s' = wsgi_decoding_dance_replace s.
+Proof.
+  unfold from_environ_string. destruct (wsgi_decoding_dance_replace s) as [t|] eqn:E; [|discriminate].
+  cbn [option_map]. intro H. inversion H; subst s'. clear H.
+  unfold wsgi_decoding_dance_replace in E. destruct (latin1_encode s) as [b|] eqn:El; [|discriminate].
+  cbn [option_map] in E. inversion E; subst t. clear E.
+  assert (Hv : valid_text (utf8_decode_replace b) = true).
+  { clear. unfold valid_text. revert b.
+    assert (G : forall n bs, (length bs <= n)%nat -> forallb valid_cp (utf8_decode_replace bs) = true).
+    { induction n as [|n IH]; intros bs Hl; [destruct bs; [reflexivity|cbn [length] in Hl; lia]|].
+      destruct bs as [|b0 r0]; [reflexivity|]. cbn [length] in Hl.
+      assert (R : valid_cp REPL = true) by reflexivity.
+      cbn [utf8_decode_replace].
+      repeat match goal with
+             | |- context [if ?c then _ else _] => destruct c eqn:?
+             | |- context [match ?l with [] => _ | _ :: _ => _ end] => is_var l; destruct l
+             | |- forallb valid_cp (_ :: _) = true => cbn [forallb]; apply andb_true_intro; split
+             | |- forallb valid_cp [] = true => reflexivity
+             | |- forallb valid_cp (utf8_decode_replace _) = true => apply IH; cbn [length] in *; lia
+             | |- valid_cp REPL = true => exact R
+             end;
+      unfold valid_cp, second_ok, is_cont in *;
+      repeat match goal with H : context [if ?c then _ else _] |- _ => destruct c eqn:? end; lia. }
+    intro b. apply (G (length b) b (le_n _)). }
+  rewrite (dance_roundtrip _ Hv). reflexivity.
+Qed.
